@@ -1248,6 +1248,12 @@ impl ObjectFile {
             // If we have both symbol tables:
             (Some(mut a_sym), Some(b_sym)) => {
                 let SymbolTable { label_map, rel_map, debug_symbols: b_debug_symbols } = b_sym;
+                // When both sources are kept, B's text follows A's text and a new line,
+                // so positions in B's text move by this many bytes:
+                let b_src_shift = match (&a_sym.debug_symbols, &b_debug_symbols) {
+                    (Some(ads), Some(_)) => ads.src_info.source().len() + 1,
+                    _ => 0
+                };
                 a_sym.debug_symbols = match (a_sym.debug_symbols, b_debug_symbols) {
                     (Some(ads), Some(bds)) => Some(DebugSymbols::link(ads, bds)?),
                     (m_ads, b_ads) => m_ads.or(b_ads)
@@ -1257,7 +1263,8 @@ impl ObjectFile {
                 a_sym.rel_map.extend(rel_map);
 
                 // For every label in symbol table B:
-                for (label, b_sym_data) in label_map {
+                for (label, mut b_sym_data) in label_map {
+                    b_sym_data.src_start = b_sym_data.src_start.saturating_add(b_src_shift);
                     match a_sym.label_map.entry(label) {
                         Entry::Occupied(mut e) => {
                             let &a_sym_data = e.get();
